@@ -95,15 +95,21 @@ Definition context_call : M bool := fun s =>
 (* T.cleanup(): cleaning := true and the context cancelled; pop one function; cleaning := false *)
 Definition begin_cleanup : M unit := fun s =>
   let t := ts s in
-  mkOut (Ok tt) (with_ts s (mkT (failed t) (cleanups t) false true)) (wev (if ctx t then [UCtxCancel] else []) false false).
+  mkOut (Ok tt) (with_ts s (mkT (failed t) (cleanups t) false true)) (wev (if ctx t then [UCtxCancel; UCleanupBegin] else [UCleanupBegin]) false false).
+(* pop is only ever called from T.cleanup, i.e. with cleaning = true (begin_cleanup set it and nothing on
+   this T clears it before end_cleanup); the guard makes that explicit so that the operation is well behaved
+   in every state *)
 Definition pop_cleanup : M (option prog) := fun s =>
   let t := ts s in
   match cleanups t with
   | [] => mkOut (Ok None) s wnil
-  | (id, c) :: rest => mkOut (Ok (Some c)) (with_ts s (mkT (failed t) rest (ctx t) true)) (wev [URun id] false false)
+  | (id, c) :: rest =>
+      if cleaning t
+      then mkOut (Ok (Some c)) (with_ts s (mkT (failed t) rest (ctx t) true)) (wev [URun id] false false)
+      else mkOut (Ok None) s wnil
   end.
 Definition end_cleanup : M unit := fun s =>
-  let t := ts s in mkOut (Ok tt) (with_ts s (mkT (failed t) (cleanups t) (ctx t) false)) wnil.
+  let t := ts s in mkOut (Ok tt) (with_ts s (mkT (failed t) (cleanups t) (ctx t) false)) (wev [UCleanupEnd] false false).
 (* Draw delivered v to user code on the current T *)
 Definition note_draw (v : val) : M unit := fun s => mkOut (Ok tt) s (mkW [] [] [] [UDraw v] [v] 1 false false false).
 (* run m on a fresh inner T that shares the stream (Custom); afterwards the outer T is back, with a
